@@ -811,7 +811,49 @@ impl Runner {
         }
         let pre_tok = token_watch.map(|k| self.w.tok(&k));
         st.pre_vm = Some(self.w.vm.clone());
-        let r = self.w.vm.exec_tx(&st.ixs);
+        let mut r = self.w.vm.exec_tx(&st.ixs);
+        // A client may present the observation accounts in the account's actual slot order rather than
+        // in sorted order: if a borrow that opens a new position is refused, retry once with the
+        // accounts ordered as the slots would be if the program did NOT re-sort (new position in the
+        // first empty slot). On a correct program this retry fails as well.
+        if !r.ok {
+            if let (Op::Borrow { .. }, Some(bi), Some(acct)) = (op, st.bank, st.macct) {
+                if let Some(a) = read_macct(&self.w.vm, &acct) {
+                    let key = self.w.banks[bi].key;
+                    let has = a.lending_account.balances.iter().any(|b| b.active != 0 && b.bank_pk == key);
+                    if !has {
+                        let mut order: Vec<Pubkey> = vec![];
+                        let mut placed = false;
+                        for b in a.lending_account.balances.iter() {
+                            if b.active != 0 {
+                                order.push(b.bank_pk);
+                            } else if !placed {
+                                order.push(key);
+                                placed = true;
+                            }
+                        }
+                        let sorted = {
+                            let mut s2 = order.clone();
+                            s2.sort_by(|x, y| y.cmp(x));
+                            s2
+                        };
+                        if placed && order != sorted {
+                            let mut metas = vec![];
+                            for k in &order {
+                                metas.extend(self.w.risk_metas_for_bank(k));
+                            }
+                            let usr = self.w.users[st.user.unwrap()].clone();
+                            let ix = self.w.ix_borrow_with(acct, usr.auth, bi, usr.tokens[bi], st.amount, metas);
+                            let r2 = self.w.vm.exec_tx(std::slice::from_ref(&ix));
+                            if r2.ok {
+                                st.ixs = vec![ix];
+                                r = r2;
+                            }
+                        }
+                    }
+                }
+            }
+        }
         st.ok = r.ok;
         st.err = r.err.as_ref().map(|(i, e)| (*i, err_code(e)));
         if let (Some(k), Some(p)) = (token_watch, pre_tok) {
